@@ -976,7 +976,7 @@ def job_table(seed):
             o = ob(obs, 'C08.table/%s/flags' % tag, F, 'the flag of every row is read back unchanged (a row written without a flag is in range, i)', okf, 'written %r read %r' % (list(flags), t2['flags_']), bound=bound, fns=mfs,
                    wit={'flags': [f for f in flags], 'read': [str(f) for f in t2['flags_']]})
             if not okf:
-                replay_table(o, 'flags')
+                replay_table(o, 'yerrflags' if has_yerr else 'flags')
             if has_yerr:
                 oke = bool(t2['has_yerr_']) and t2['yerr_'].r == n and all(rvc.nf_zero(t2['yerr_'].g(i, 0).v - e.g(i, 0).v) for i in range(n))
                 o = ob(obs, 'C08.table/%s/yerr' % tag, F, 'the error column of a table that has one is read back unchanged', oke,
